@@ -146,6 +146,11 @@ def reference_table(include_corpus=True):
         c = al.compile(text, {"c": "tm", "d": "en"}, "t.feature")
         row.append(engine.dig([c["kind"], c.get("norm")]))
         tab[name] = row
+        if name == "00-minimal":
+            r = al.parse(text, {"c": "tm", "d": "en"}, "ast", False, "text")
+            if r["kind"] != "doc" or c["kind"] != "pickles" or r["toks"] != 5 or r["reads"] != 5 or len(r["draws"]) != 2:
+                raise Harness("sanity: the reference parse of the minimal pool document is %s/%s (toks %s, reads %s, draws %s): %s" % (
+                    r["kind"], c["kind"], r["toks"], r["reads"], len(r["draws"]), engine.excerpt(r["norm"])))
     return tab
 
 
@@ -260,6 +265,7 @@ def run_worker(args):
             ex["sim_steps"] = ex.get("sim_steps", 0) + st["steps"]
             ex["tokens_delivered"] = ex.get("tokens_delivered", 0) + st["toks"]
             ex["scanner_reads"] = ex.get("scanner_reads", 0) + st["reads"]
+            ex["operations_ending_in_a_foreign_exception"] = ex.get("operations_ending_in_a_foreign_exception", 0) + st["foreign"]
             ex["context_switches_inside_a_parse"] = ex.get("context_switches_inside_a_parse", 0) + st["switches_inside"]
             if sampled and index < args.get("det_sample", DET_SAMPLE):
                 dg[str(index)] = [res["digest"], res["sched_digest"], bool(res["violations"])]
